@@ -66,12 +66,12 @@ theorem reg_absent_authSel_is_handled (env : Prog.Env) (rp : RP) (o : CreationOp
 
 /-- a TPM certInfo whose certified name is empty or a handle (no digest) is an explicit reject -/
 theorem tpm_name_without_digest_rejects (env : Prog.Env) (o : Att.AttObj) (h : Bytes) (ciRaw : Bytes) (ci : CertInfoView)
-    (h1 : Att.stmtBytes o.stmt "certInfo" = some ciRaw) (h2 : env.answer (.tpmCertInfo ciRaw) = .certInfo ci)
+    (h1 : Att.stmtBytes o.stmt "certInfo" = some ciRaw) (h2 : Tpm2.certInfo (Prog.run env Att.askHashes) ciRaw = some ci)
     (h3 : ∀ a v, ci.name ≠ .digest a v) : Prog.run env (Att.verifyTPM o h) = none := by
   cases hr : Prog.run env (Att.verifyTPM o h) with
   | none => rfl
   | some res =>
-    obtain ⟨_, _, _, ciRaw', ci', _, _, _, _, _, _, _, nameAlg, nameVal, _, _, _, hb1, hb2, hrest⟩ := ((C04.tpm_iff env o h res).1 hr).body
+    obtain ⟨_, _, _, hashes, ciRaw', ci', _, _, _, _, _, _, _, nameAlg, nameVal, _, _, _, rfl, hb1, hb2, hrest⟩ := ((C04.tpm_iff env o h res).1 hr).body
     rw [h1] at hb1
     injection hb1 with e
     subst e
@@ -121,7 +121,7 @@ theorem empty_x5c_rejects (env : Prog.Env) (o : Att.AttObj) (h : Bytes) (hx : Cb
   · cases hr : Prog.run env (Att.verifyTPM o h) with
     | none => rfl
     | some res =>
-      obtain ⟨der, c, rest, _, _, _, _, _, _, _, _, _, _, _, _, _, hx5, _⟩ := ((C04.tpm_iff env o h res).1 hr).body
+      obtain ⟨der, c, rest, _, _, _, _, _, _, _, _, _, _, _, _, _, _, hx5, _⟩ := ((C04.tpm_iff env o h res).1 hr).body
       exact absurd (key _ hx5) (by simp)
 
 end WebAuthn.C09
